@@ -35,6 +35,9 @@ import (
 //	      (routes are compiled at registration) and restores the map before the mount op returns, also on a
 //	      panic.  A global var is only the default of a route var WITHOUT inline regex; the static handlers'
 //	      routes all have one ("{file:.+}", "{file:.+\.(?:exts)}"), so the model ignores gvar.
+//	viasym                                    the root of the NEXT mount is handed to rux as a symbolic link to www+target
+//	grow <files> <dirs>                       further paths appear in the tree, the mount stays (engine_static_root.go:
+//	      roots that are missing at registration, are created later, are (dangling) links)
 //
 // answer of req:  "<status class> <what was served>" ;; "<status> <names given to FileSystem.Open (kind fs)>"
 // Location headers, error texts and content types are deliberately not part of the answer.
@@ -272,6 +275,7 @@ func (staticEngine) Run(ops []string) (ans []string, oracle []string) {
 	var cfg mountCfg
 	var fsNames []string
 	var gvars [][2]string // defined by gvar ops, consumed by the next mount
+	var viaSym bool       // set by viasym, consumed by the next mount
 
 	ensureBox := func() error {
 		if sb != nil {
@@ -315,9 +319,27 @@ func (staticEngine) Run(ops []string) (ans []string, oracle []string) {
 				gvars = append(gvars, [2]string{n, v})
 				return "ok"
 
+			case f[0] == "viasym" && len(f) == 1:
+				viaSym = true
+				return "ok"
+
+			case f[0] == "grow" && len(f) == 3:
+				files, ok1 := splitHexList(f[1])
+				dirs, ok2 := splitHexList(f[2])
+				if !ok1 || !ok2 {
+					return "bad-op"
+				}
+				if err := ensureBox(); err != nil {
+					panic("harness: cannot build the sandbox: " + err.Error())
+				}
+				stRootGrow(sb, files, dirs)
+				return "ok"
+
 			case f[0] == "mount" && len(f) == 6:
 				pending := gvars
 				gvars = nil
+				sym := viaSym
+				viaSym = false
 				if err := ensureBox(); err != nil {
 					panic("harness: cannot build the sandbox: " + err.Error())
 				}
@@ -340,6 +362,10 @@ func (staticEngine) Run(ops []string) (ans []string, oracle []string) {
 				}
 				r := rux.New(opts...)
 				dir := sb.root + cfg.target
+				stRootSecrets(sb)
+				if sym {
+					dir = stRootLink(sb, dir)
+				}
 				known := true
 				withGlobalVars(pending, func() {
 					switch cfg.kind {
@@ -388,7 +414,10 @@ func (staticEngine) Run(ops []string) (ans []string, oracle []string) {
 				}
 				fsNames = fsNames[:0]
 				w := httptest.NewRecorder()
-				router.ServeHTTP(w, rq)
+				func() {
+					defer stRootChdir(sb.base)() // the process works next to the root, where the secrets are
+					router.ServeHTTP(w, rq)
+				}()
 				body := w.Body.String()
 				code := w.Code
 
@@ -578,6 +607,8 @@ func (staticEngine) Corpus() []Case {
 		ops = append(ops, reqOps(attack(cfg[1])...)...)
 		cases = append(cases, Case{Ops: ops, Tag: "corpus-oddprefix"})
 	}
+	// roots that are missing at registration, created later, (dangling) symbolic links
+	cases = append(cases, stRootCorpus(tree, attack)...)
 	return cases
 }
 
@@ -788,6 +819,9 @@ func genTarget(r *Rand, prefix string, files, dirs []string) string {
 }
 
 func (staticEngine) Gen(r *Rand, tier string) Case {
+	if r.Chance(1, 12) { // streams root-*: the root is missing / appears later / is a (dangling) link
+		return stRootGen(r, tier)
+	}
 	files, dirs := genTree(r)
 	ops := []string{treeOp(files, dirs)}
 	nm := r.Range(1, 3)
